@@ -139,6 +139,42 @@ theorem ra_print_partial (x : ℚ) (n : ℤ) (h : |x| < 360) :
   refine ⟨h3 24 (by omega) M1 S1, ?_⟩
   rw [h2, e1, e2, e3]; exact hv
 
+/-- Right ascension read-back: what `ra_str` prints reads back (no modulus needed: the hour field is
+    never wrapped) to `value / 15` with its seconds rounded half-even at decimal `n_dec`, which is
+    within half a unit of that decimal of `value / 15`; hence also "modulo 24 h". -/
+theorem ra_reads_back (x : ℚ) (n : ℤ) (h : |x| < 360) (hn : 0 ≤ n) (h10 : n ≤ 10) :
+    ∃ p : Printed, ra_print x n = .ok p ∧ |readback p - x / 15| ≤ 1 / (2 * pow10 n) / 3600 := by
+  have h24 : |x / 15| < ((24 : ℤ) : ℚ) := by
+    rw [abs_div, abs_of_pos (by norm_num : (0 : ℚ) < 15), div_lt_iff₀ (by norm_num)]
+    push_cast; linarith
+  obtain ⟨d, m, s, sg, D, M, S, e, _, hf, hsg, d0, d1, m0, m1, s0, s1, hv, D0, _, _, M0, _, S0, _, _, hpos⟩ :=
+    dms_fields_full (L := 24) (by norm_num) h24 n
+  obtain ⟨_, h2, _⟩ := dms_print_spec hf D0 M0 S0 hsg
+  obtain ⟨_, he0, hval⟩ := hpos hn
+  have hs60 : proundn s n ≤ ((60 : ℤ) : ℚ) := proundn_le_int (by push_cast; linarith) hn
+  push_cast at hs60
+  have hDq : (0 : ℚ) ≤ (D : ℚ) := by exact_mod_cast D0
+  have hMq : (0 : ℚ) ≤ (M : ℚ) := by exact_mod_cast M0
+  have hdq : (d : ℚ) ≤ 23 := by exact_mod_cast (by omega : d ≤ 23)
+  have hmq : (m : ℚ) ≤ 59 := by exact_mod_cast (by omega : m ≤ 59)
+  rw [he0 h10] at hval
+  have hval' : (D : ℚ) + (M : ℚ) / 60 + S / 3600 = (d : ℚ) + (m : ℚ) / 60 + proundn s n / 3600 := by
+    rcases hval with hv' | hv'
+    · rw [hv']; ring
+    · exfalso
+      have : (0 : ℚ) ≤ (D : ℚ) + (M : ℚ) / 60 + S / 3600 := by positivity
+      linarith
+  refine ⟨dms_print (x / 15) n, ra_print_eq h n, ?_⟩
+  rw [h2, hval']
+  have hr := proundn_spec s n
+  have hp := pow10_pos n
+  have e0 : sg * ((d : ℚ) + (m : ℚ) / 60 + proundn s n / 3600) - x / 15 = sg * ((proundn s n - s) / 3600) := by
+    rw [← hv]; ring
+  rw [e0, abs_mul, abs_div, abs_of_pos (by norm_num : (0 : ℚ) < 3600)]
+  have hsgabs : |sg| = 1 := by rcases hsg with e1 | e1 <;> rw [e1] <;> norm_num
+  rw [hsgabs, one_mul, abs_sub_comm]
+  exact div_le_div_of_nonneg_right hr (by norm_num)
+
 /-- DEFECT WITNESS: an hour field of 24. `Angle(359.9999).ra_str(n_dec=0)` prints "24h 0' 0.0''". -/
 theorem ra_hours_counterexample : ra_print 359.9999 0 = .ok (.dms 24 0 0) ∧ ¬ fieldsBelow 24 (.dms 24 0 0) := by
   constructor
